@@ -2,16 +2,37 @@
 
    Clause of the property                                     theorem(s)
    ---------------------------------------------------------  ------------------------------------------
+   A. path functions (for all byte strings)
    simplifyPath is idempotent                                 simplify_idempotent
    ... and lexically equivalent to its input                  simplify_equivalent, simplify_lexically_equivalent,
-                                                              lexical_equivalence_is_normal_form, simplify_canonical
+                                                              lexical_equivalence_is_normal_form, simplify_canonical,
+                                                              simplify_is_reference_text
    directory name + base name recompose the path              dir_plus_base_recomposes, dir_plus_base_denotes_path
    stem + extension recompose the base name                   stem_plus_extension_recomposes, base_minus_extension
    (scanners = the reference "before/after the last ...")     scanners_match_reference
    getRelativePath(from,to) appended to from denotes to       relative_path_denotes_target
+   B. files and directories (library logic over the kernel model of FsModel part K, which is trusted)
+   files return exactly the bytes written across              files_return_written_bytes (any history of write / seek /
+     write/append/seek/readAll                                read / readAll / size on a read-write handle refines the byte
+                                                              buffer), open_existing_for_read_write, open_fresh_for_read_write
+                                                              (start of the history; append = cursor at the end),
+                                                              written_bytes_are_read_back, write_changes_nothing_else
+     ... copy / rename                                        copy_carries_the_bytes, rename_carries_the_node
+   failed operations leave no new files behind                failed_open_changes_nothing, failed_rename_changes_nothing,
+                                                              failed_copy_leaves_no_new_name
+   create makes all missing parents, true iff exists after    create_true_iff_exists_after, create_true_means_exists,
+                                                              create_makes_all_parents, create_keeps_what_was_there
+   recursive unlink removes exactly the given tree,           recursive_unlink_removes_exactly_subtree, cut_out_is_exact,
+     never following symbolic links out of it                 unlink_never_follows_a_link, unlink_nonrecursive_keeps_contents
+   (the hypothesis `well-formed tree` of the unlink theorem)  reachable_states_are_well_formed
+   Not covered by a theorem (correspondence only): paths through '.', '..' or symbolic links for
+   unlink (the theorem is for texts of proper names through real directories; create / exists /
+   rename / copy / open theorems hold for every path text); a second handle on the same file;
+   write-only / read-only handles; File::unlink, createSymbolicLink (single system calls).
 *)
 From Coq Require Import ZArith List Bool.
 From Path Require Import PathSpec PathModel PathProofs RelProofs.
+From Path Require Import FsSpec FsModel FsTree FsWalk FsFile FsDir FsCreate FsMove FsCopy FsWf.
 Import ListNotations.
 Local Open Scope Z_scope.
 
@@ -111,3 +132,208 @@ Example ex_relative_nothing_common : rel_hyp [97;47;98] [99] = true /\
 Proof. vm_compute. auto. Qed.
 Example ex_relative_root : rel_hyp [47] [47;97] = true /\ getRelativePath [47] [47;97] = [97].
 Proof. vm_compute. auto. Qed.
+
+(* ---- part B: files and directories --------------------------------------------------------------- *)
+
+(* any history of operations on a read-write handle answers like the byte buffer and leaves the
+   file holding the buffer's bytes; nothing else in the tree, no other handle changes *)
+Theorem files_return_written_bytes : forall os st h b,
+  rw_file st h b ->
+  exists st', h_run st h os = (st', snd (buf_run b os)) /\ rw_file st' h (fst (buf_run b os)) /\ frame st st' h.
+Proof. exact h_run_refines. Qed.
+Print Assumptions files_return_written_bytes.
+
+Theorem open_existing_for_read_write : forall st h path fa fo d nm c,
+  hfind (handles st) h = None ->
+  resolve st true path = WAt d nm (Some SFile) -> get (root st) (d ++ [nm]) = Some (NFile c) ->
+  exists st', f_open st h path true true fa fo = (st', true) /\
+              rw_file st' h {| b_data := c; b_pos := if fa then length c else O |} /\
+              root st' = root st /\ cwd st' = cwd st.
+Proof. exact open_rw_existing. Qed.
+Print Assumptions open_existing_for_read_write.
+
+Theorem open_fresh_for_read_write : forall st h path fa d nm es,
+  hfind (handles st) h = None ->
+  resolve st true path = WAt d nm None -> get (root st) d = Some (NDir es) ->
+  exists st', f_open st h path true true fa false = (st', true) /\
+              rw_file st' h {| b_data := []; b_pos := O |} /\
+              root st' = upd (root st) (d ++ [nm]) (Some (NFile [])) /\ cwd st' = cwd st.
+Proof. exact open_rw_fresh. Qed.
+Print Assumptions open_fresh_for_read_write.
+
+(* the buffer itself: the bytes written are at the place they were written to ... *)
+Theorem written_bytes_are_read_back : forall data pos d,
+  firstn (length d) (skipn pos (overwrite data pos d)) = d.
+Proof. exact overwrite_read_back. Qed.
+Print Assumptions written_bytes_are_read_back.
+
+(* ... and every other byte of the file is what it was *)
+Theorem write_changes_nothing_else : forall data pos d i,
+  ((i < pos)%nat -> (i < length data)%nat -> nth i (overwrite data pos d) 0 = nth i data 0) /\
+  ((pos + length d <= i)%nat -> nth i (overwrite data pos d) 0 = nth i data 0).
+Proof. exact overwrite_elsewhere. Qed.
+Print Assumptions write_changes_nothing_else.
+
+Theorem copy_carries_the_bytes : forall st src dst fie st',
+  f_copy st src dst fie = (st', true) ->
+  exists ps pd c, get (root st) ps = Some (NFile c) /\
+                  get (root st') pd = Some (NFile c) /\ get (root st') ps = Some (NFile c) /\
+                  (forall q, is_prefix pd q = false -> sget (root st') q = sget (root st) q).
+Proof. exact copy_success_bytes. Qed.
+Print Assumptions copy_carries_the_bytes.
+
+Theorem rename_carries_the_node : forall st from to fie st' d1 n1 k1,
+  f_rename st from to fie = (st', true) -> resolve st false from = WAt d1 n1 (Some k1) ->
+  exists x d2 n2 k2,
+    get (root st) (d1 ++ [n1]) = Some x /\ resolve st false to = WAt d2 n2 k2 /\
+    get (root st') (d2 ++ [n2]) = Some x /\ cwd st' = cwd st /\ (fie = true -> k2 = None).
+Proof. exact rename_moves. Qed.
+Print Assumptions rename_carries_the_node.
+
+Theorem failed_open_changes_nothing : forall st h path fr fw fa fo st',
+  f_open st h path fr fw fa fo = (st', false) -> st' = st.
+Proof. exact open_failure_unchanged. Qed.
+Print Assumptions failed_open_changes_nothing.
+
+Theorem failed_rename_changes_nothing : forall st from to fie st',
+  f_rename st from to fie = (st', false) -> st' = st.
+Proof. exact rename_failure_unchanged. Qed.
+Print Assumptions failed_rename_changes_nothing.
+
+Theorem failed_copy_leaves_no_new_name : forall st src dst fie st',
+  f_copy st src dst fie = (st', false) ->
+  forall q, sget (root st') q <> None -> sget (root st) q <> None.
+Proof. exact copy_failure_no_new_names. Qed.
+Print Assumptions failed_copy_leaves_no_new_name.
+
+(* Directory::create, for every '/'-separated path text (dots, links, anything) *)
+Theorem create_true_iff_exists_after : forall st dir st' b,
+  no_backslash dir -> d_create (create_fuel dir) st dir = (st', b) -> b = d_exists st' dir.
+Proof. exact create_iff_exists. Qed.
+Print Assumptions create_true_iff_exists_after.
+
+(* the "true" half needs no hypothesis at all *)
+Theorem create_true_means_exists : forall fuel st dir st',
+  d_create fuel st dir = (st', true) -> d_exists st' dir = true.
+Proof. exact create_true_exists. Qed.
+Print Assumptions create_true_means_exists.
+
+Theorem create_makes_all_parents : forall fuel st dir st' pre rest,
+  d_create fuel st dir = (st', true) -> dir = pre ++ 47 :: rest -> pre <> [] -> d_exists st' pre = true.
+Proof. exact create_makes_parents. Qed.
+Print Assumptions create_makes_all_parents.
+
+Theorem create_keeps_what_was_there : forall fuel st dir st' b q k,
+  d_create fuel st dir = (st', b) -> sget (root st) q = Some k -> sget (root st') q = Some k.
+Proof. exact create_keeps. Qed.
+Print Assumptions create_keeps_what_was_there.
+
+(* Directory::unlink(dir, true) on a real directory named by proper names: true, and the tree
+   afterwards is the tree before with exactly that sub-tree cut out *)
+Theorem recursive_unlink_removes_exactly_subtree : forall st names c es fuel,
+  names_ok (names ++ [c]) ->
+  get (root st) ((cwd st ++ names) ++ [c]) = Some (NDir es) ->
+  wf_node (root st) = true -> (height (root st) <= fuel)%nat ->
+  d_unlink fuel st (join (names ++ [c])) true
+  = (set_root st (upd (root st) ((cwd st ++ names) ++ [c]) None), true).
+Proof. exact unlink_removes_subtree. Qed.
+Print Assumptions recursive_unlink_removes_exactly_subtree.
+
+(* cutting out: everything at or below the place is gone, everything else - in particular whatever
+   a symbolic link inside the tree pointed to - is untouched, contents included *)
+Theorem cut_out_is_exact : forall r cp,
+  wf_node r = true -> cp <> [] ->
+  let r' := upd r cp None in
+  (forall q, get r' (cp ++ q) = None) /\
+  (forall q, is_prefix cp q = false -> sget r' q = sget r q) /\
+  (forall q, is_prefix cp q = false -> is_prefix q cp = false -> get r' q = get r q).
+Proof. exact cut_out_spec. Qed.
+Print Assumptions cut_out_is_exact.
+
+Theorem unlink_never_follows_a_link : forall st names c t fuel rec,
+  names_ok (names ++ [c]) ->
+  get (root st) ((cwd st ++ names) ++ [c]) = Some (NLink t) ->
+  d_unlink fuel st (join (names ++ [c])) rec = (st, false).
+Proof. exact unlink_refuses_link. Qed.
+Print Assumptions unlink_never_follows_a_link.
+
+Theorem unlink_nonrecursive_keeps_contents : forall st names c e es fuel,
+  names_ok (names ++ [c]) ->
+  get (root st) ((cwd st ++ names) ++ [c]) = Some (NDir (e :: es)) ->
+  d_unlink fuel st (join (names ++ [c])) false = (st, false).
+Proof. exact unlink_nonrecursive_keeps. Qed.
+Print Assumptions unlink_nonrecursive_keeps_contents.
+
+(* every state the operations can reach from the harness's initial tree is well-formed, and
+   `unlink_fuel` is enough fuel there *)
+Theorem reachable_states_are_well_formed : forall os,
+  wf_node (root (fs_run init_state os)) = true.
+Proof. exact reachable_wf. Qed.
+Print Assumptions reachable_states_are_well_formed.
+
+(* ---- non-vacuity for part B ------------------------------------------------------------------------- *)
+
+(* in/a/{f="hi", b/{g=""}, l -> ../../out/s},  out/s/keep="K",  in/h="xy" *)
+Definition demo : state :=
+  fs_run init_state
+    [OpMkdir [97]; OpMkfile [97;47;102] [104;105]; OpMkdir [97;47;98]; OpMkfile [97;47;98;47;103] [];
+     OpMklink [46;46;47;46;46;47;111;117;116;47;115] [97;47;108];
+     OpMkdir [46;46;47;111;117;116;47;115]; OpMkfile [46;46;47;111;117;116;47;115;47;107] [75];
+     OpMkfile [104] [120;121]].
+
+Example ex_unlink_hypotheses :
+  names_ok ([] ++ [[97]]) /\ (exists es, get (root demo) ((cwd demo ++ []) ++ [[97]]) = Some (NDir es) /\ es <> []) /\
+  wf_node (root demo) = true /\ (height (root demo) <= unlink_fuel demo)%nat.
+Proof.
+  split; [repeat constructor|]. split; [eexists; split; [vm_compute; reflexivity|discriminate]|].
+  split; [vm_compute; reflexivity|]. vm_compute. repeat constructor.
+Qed.
+
+(* the tree "a" goes, the file behind the link a/l -> ../../out/s stays, so does in/h *)
+Example ex_unlink_result :
+  let (st', ok) := d_unlink (unlink_fuel demo) demo [97] true in
+  ok = true /\ sget (root st') (cwd demo ++ [[97]]) = None /\
+  get (root st') [G1; G2; G3; OUT; [115]; [107]] = Some (NFile [75]) /\
+  get (root st') (cwd demo ++ [[104]]) = Some (NFile [120;121]).
+Proof. vm_compute. repeat split; reflexivity. Qed.
+
+Example ex_unlink_link_refused :
+  get (root demo) ((cwd demo ++ [[97]]) ++ [[108]]) = Some (NLink [46;46;47;46;46;47;111;117;116;47;115]) /\
+  d_unlink (unlink_fuel demo) demo [97;47;108] true = (demo, false).
+Proof. vm_compute. split; reflexivity. Qed.
+
+(* create "x/y/z": true and all three exist; create "h/x" below the file h: false, nothing new *)
+Example ex_create :
+  let (st', ok) := d_create (create_fuel [120;47;121;47;122]) demo [120;47;121;47;122] in
+  ok = true /\ d_exists st' [120;47;121;47;122] = true /\ d_exists st' [120;47;121] = true /\ d_exists st' [120] = true.
+Proof. vm_compute. repeat split; reflexivity. Qed.
+Example ex_create_fails :
+  d_create (create_fuel [104;47;120]) demo [104;47;120] = (demo, false) /\ d_exists demo [104;47;120] = false.
+Proof. vm_compute. split; reflexivity. Qed.
+
+(* open h read-write, write "AB" at 1, seek 0, readAll: "xAB"; the handle refines the buffer *)
+Example ex_handle :
+  let st1 := fst (f_open demo 0 [104] true true false true) in
+  rw_file st1 0 {| b_data := [120;121]; b_pos := 0 |} /\
+  snd (h_run st1 0 [HSeek 1 0; HWrite [65;66]; HSeek 0 0; HReadAll; HSize])
+  = [OInt 1; OBool true; OInt 0; OData true [120;65;66]; OInt 3].
+Proof.
+  split; [|vm_compute; reflexivity].
+  eexists. vm_compute. repeat split; try reflexivity. discriminate.
+Qed.
+
+(* rename of a missing source with failIfExists: false, and no placeholder stays *)
+Example ex_rename_fails : f_rename demo [109] [110] true = (demo, false).
+Proof. vm_compute. reflexivity. Qed.
+(* copy of a directory: false, nothing created; copy of h to a/n: the bytes arrive *)
+Example ex_copy_dir_fails : f_copy demo [97] [110] false = (demo, false).
+Proof. vm_compute. reflexivity. Qed.
+Example ex_copy :
+  let (st', ok) := f_copy demo [104] [97;47;110] true in
+  ok = true /\ get (root st') (cwd demo ++ [[97]; [110]]) = Some (NFile [120;121]).
+Proof. vm_compute. split; reflexivity. Qed.
+Example ex_rename :
+  let (st', ok) := f_rename demo [104] [97;47;108;47;110] true in       (* through the link, to the outside *)
+  ok = true /\ get (root st') [G1; G2; G3; OUT; [115]; [110]] = Some (NFile [120;121]) /\
+  sget (root st') (cwd demo ++ [[104]]) = None.
+Proof. vm_compute. repeat split; reflexivity. Qed.
